@@ -268,7 +268,9 @@ def run(rep, tier, root=None):
                 return None
             par = 0 if case == "even" else 1
             return (par == c_) == (op_ == "==")
-        if (same_value(l, wm) or same_value(l, -wm)) and c_ == 0:
+        if c_ == 0 and isinstance(l, Rat) and not same_value(l, jmod):
+            # a test of the function's own azimuthal order against 0 (whatever formula it computes it with: the value it
+            # returns is compared with Noll's below)
             neg = same_value(l, -wm) and not same_value(l, wm)
             zero = case == "zero"               # |m| >= 0: m > 0 is m != 0
             table = {"==": zero, "!=": not zero, ">": (not zero) and not neg, "<": (not zero) and neg, ">=": zero or not neg, "<=": zero or neg}
